@@ -402,6 +402,22 @@ Section Crypto.
     | o => o
     end.
 
+  (* the receive loop of IPClient.measureClockOffsetIP as far as NTS decides: the
+     datagrams ds arrive in this order; one that fails DecodePacket /
+     ProcessResponse is skipped once (maxNumRetries = 1) when the context has a
+     deadline, otherwise the call fails; the result is the position of the
+     datagram the measurement is computed from (i counts the datagrams already
+     consumed, retries the retries already used) *)
+  Fixpoint client_loop (deadline : bool) (key reqID : bytes) (ds : list bytes) (retries i : nat) : option nat :=
+    match ds with
+    | [] => None
+    | b :: r =>
+        match client_accept b key reqID with
+        | Ok _ => Some i
+        | _ => if deadline && (retries =? 0)%nat then client_loop deadline key reqID r 1 (S i) else None
+        end
+    end.
+
   (* ServerCookie.EncryptWithNonce(key, keyid) with the 16 random bytes *)
   Definition sc_encrypt (c : server_cookie) (key : bytes) (keyid : Z) (rnd : bytes) : outcome enc_cookie :=
     if negb (key_ok key) then Err EKeySize else
@@ -541,3 +557,24 @@ Definition C10_reissue_ok (replied cookies_ok : bool) : bool :=
    in the (previously empty) cookie store of the client after the packet *)
 Definition C10_reject_clean (accepted : bool) (stored : list bytes) : bool :=
   accepted || match stored with [] => true | _ :: _ => false end.
+
+(* "a response to a different request is rejected": the client whose request
+   number n is outstanding was handed the response that the server made for
+   request number k of the same session *)
+Definition C10_session_ok (accepted : bool) (n k : Z) : bool :=
+  if accepted then n =? k else true.
+
+(* the client's receive loop: used = the position in ds of the datagram the
+   returned offset was computed from (negative: the call failed).  "A client
+   accepts an NTS response only if the authenticator verifies ... and the unique
+   identifier equals that of its outstanding request": that datagram carries,
+   unchanged, the authenticated bytes, nonce and ciphertext of a response an
+   honest server sealed under the client's S2C key for this request; and the
+   genuine response, when it is the first datagram, is the one used *)
+Definition C10_client_ok (hs : list honest) (ds : list bytes) (key reqid : bytes) (used : Z) : bool :=
+  (if used <? 0 then (-1 <=? used)
+   else existsb (justifies (nth (Z.to_nat used) ds []) key 1 reqid) hs) &&
+  match ds with
+  | b :: _ => if existsb (is_honest b key 1 reqid) hs then used =? 0 else true
+  | [] => true
+  end.
